@@ -1,8 +1,8 @@
 (* C09 - Administrative and status endpoints require their own scopes.
    Model: Model/Access.v [handle true] (router, authenticator, binder, handlers of the tree with F07 applied).
    Only statements, each closed by [exact] of a lemma of Proofs/Access_proofs.v. *)
-From Relay Require Import Base.Prelude Base.AList Model.DenyStore Model.Token Model.Access
-  Proofs.Access_proofs Proofs.Access_history.
+From Relay Require Import Base.Prelude Base.AList Model.DenyStore Model.Token Model.Access Model.Routing
+  Proofs.Access_proofs Proofs.Access_history Proofs.Routing_proofs.
 Local Open Scope string_scope.
 
 (* listing, denying, allowing: a 2xx answer, or ANY change of the state (deny list, allow list, code store,
@@ -71,6 +71,7 @@ Print Assumptions C09_scope_match_is_equality.
    status and nothing changes *)
 Theorem C09_invalid_token_refused :
   forall cfg s r,
+    ~ public_route (r_route r) ->   (* the documentation resources and OPTIONS * never look at a token *)
     (forall c, validate_header (clock s) (cfg_host cfg) (cfg_secret cfg) (r_cred r) <> Principal c) ->
     refusal (snd (handle true cfg s r)) /\ fst (handle true cfg s r) = s.
 Proof. exact unauthenticated_refused. Qed.
@@ -80,10 +81,57 @@ Print Assumptions C09_invalid_token_refused.
    "previous" key, the empty key, ...), whatever key id its header names *)
 Theorem C09_forged_scope_refused :
   forall cfg s r b,
+    ~ public_route (r_route r) ->
     r_cred r = Bearer b -> b_signed b <> Some (cfg_secret cfg) ->
     refusal (snd (handle true cfg s r)) /\ fst (handle true cfg s r) = s.
 Proof. exact wrong_key_refused. Qed.
 Print Assumptions C09_forged_scope_refused.
+
+(* "for every endpoint and method of the access API": the quantifier over request LINES.  For every method string
+   and every request-target byte string (router model: Model/Routing.v - net/http's acceptance, the documentation
+   middlewares, method upper-casing, path.Clean of the escaped path, the two denco tables, 404 / 405), a 2xx answer
+   or any change of state happens only (a) on one of the three public resources, which change nothing, (b) on
+   /session/{id} for a request valid in C01's sense, (c) on the four admin operations for a valid token with exactly
+   relay:admin, (d) on /status for a valid token with exactly relay:stats *)
+Theorem C09_every_route_is_guarded :
+  forall cfg s l,
+    let r := req_of l in
+    success (snd (handle true cfg s r)) \/ fst (handle true cfg s r) <> s ->
+    (public_route (r_route r) /\ fst (handle true cfg s r) = s) \/
+    (exists id, r_route r = RSession id /\ valid_request cfg s r) \/
+    (admin_route (r_route r) /\
+       exists b, r_cred r = Bearer b /\ valid_principal (clock s) (cfg_host cfg) (cfg_secret cfg) b /\ In "relay:admin" (c_scopes (b_claims b))) \/
+    (r_route r = RStatus /\
+       exists b, r_cred r = Bearer b /\ valid_principal (clock s) (cfg_host cfg) (cfg_secret cfg) b /\ In "relay:stats" (c_scopes (b_claims b))).
+Proof. exact guarded_line. Qed.
+Print Assumptions C09_every_route_is_guarded.
+
+(* no aliasing: a line reaches an operation only if net/http accepts it, the decoded path is not a documentation
+   resource, the method is GET or POST up to ASCII case, and the CLEANED ESCAPED path is found in that method's
+   table - whose keys are, byte for byte, /bids/allow, /bids/deny, /status and /session/<one non-empty segment>
+   (get_table_inv / post_table_inv); so no prefix, suffix, case variant, %2e or %2F spelling reaches one *)
+Theorem C09_no_route_aliasing :
+  forall m t r,
+    route_of m t = r -> operation r ->
+    valid_method m = true /\
+    exists raw dec, raw_path_of_target m t = Some raw /\ unescape raw = Some dec /\
+      dec <> "/swagger.json" /\ dec <> "/docs" /\
+      let esc := escaped_path raw dec in
+      (upper m = "GET" /\ get_table (clean esc) = Some r) \/
+      (upper m = "POST" /\ post_table (clean_segments esc) (clean esc) = Some r).
+Proof. exact route_operation_inv. Qed.
+Print Assumptions C09_no_route_aliasing.
+
+Theorem C09_tables_are_the_six_patterns :
+  (forall p r, get_table p = Some r ->
+     (p = "/bids/allow" /\ r = RListAllow) \/ (p = "/bids/deny" /\ r = RListDeny) \/ (p = "/status" /\ r = RStatus)) /\
+  (forall segs p r, post_table segs p = Some r ->
+     (p = "/bids/allow" /\ r = RAllow) \/ (p = "/bids/deny" /\ r = RDeny) \/
+     (exists seg, segs = ["session"; seg] /\
+        ((seg = ":" /\ r = RSession "") \/
+         (seg <> ":" /\ exists id, r = RSession id /\ (unescape seg = Some id \/ (unescape seg = None /\ id = seg)))))).
+Proof. split; [exact get_table_inv|exact post_table_inv]. Qed.
+Print Assumptions C09_tables_are_the_six_patterns.
 
 (* a refused call disconnects nobody, spends no code and leaves both lists alone *)
 Theorem C09_no_disconnect :
@@ -123,3 +171,16 @@ Example C09_witness_forged :
   handle true c09_cfg (init 10) (mkreq RDeny (tok 8%N) (Some 1%N) (Some "40")) = (init 10, Resp 500 BError) /\
   snd (handle true c09_cfg (init 10) (mkreq RDeny (tok 7%N) (Some 1%N) (Some "40"))) = Resp 204 BEmpty.
 Proof. vm_compute. split; reflexivity. Qed.
+
+(* non-vacuity of the routing theorems: spellings that do and do not reach an operation *)
+Example C09_witness_routes :
+  map (fun mt => route_of (fst mt) (snd mt))
+    [("GET", "/bids/deny"); ("get", "//bids/./deny/"); ("POST", "/x/../bids/allow?bid=/status"); ("GET", "http://other.example/status");
+     ("GET", "/bids/Deny"); ("GET", "/bids/%64eny"); ("GET", "/bids/deny%2F"); ("GET", "/bids/deny/.."); ("GET", "/bids/deny/x");
+     ("PUT", "/bids/deny"); ("HEAD", "/status"); ("POST", "/session/a%2Fb"); ("POST", "/session/:"); ("POST", "/session/a/b");
+     ("GET", "/swagger%2Ejson"); ("DELETE", "/docs"); ("OPTIONS", "*"); ("GET", "*"); ("GET", "status"); ("G T", "/status"); ("GET", "/status%")]
+  = [RListDeny; RListDeny; RAllow; RStatus;
+     RNotFound; RNotFound; RNotFound; RNotFound; RNotFound;
+     RBadMethod; RBadMethod; RSession "a/b"; RSession ""; RNotFound;
+     RDocSpec; RDocUI; ROptionsStar; RNotFound; ROpaque; ROpaque; ROpaque].
+Proof. vm_compute. reflexivity. Qed.
